@@ -1436,8 +1436,10 @@ fn main() {
     args.push("-Zmir-opt-level=0".to_string());
     args.push("-Zmir-enable-passes=-CheckAlignment,-CheckNull,-CheckEnums".to_string());
     if std::env::var("ORDFACTS_RELEASE").is_ok() {
+      // release-like arithmetic: no overflow asserts in MIR.  (debug-assertions stay on: turning them off flips
+      // cfg(debug_assertions) for the member crates only, and rust-embed's derive then expands against a dependency
+      // that was compiled with the other setting — it no longer type-checks.)
       args.push("-Coverflow-checks=off".to_string());
-      args.push("-Cdebug-assertions=off".to_string());
     }
   }
   let mut cb = Cb { out: if target_crate { out } else { None }, crates };
